@@ -43,13 +43,24 @@ def with_items(case, items):
 def evaluate(cases):
     if not cases:
         return []
-    return E.evaluate(PROP, "verdict_c17", cases, _state.setdefault("stats", {}))
+    vs = E.evaluate(PROP, "verdict_c17", cases, _state.setdefault("stats", {}))
+    # histories of the class of known finding F-C17 that fail the property: is what the code did exactly what the finding describes (= what the model,
+    # which transcribes the code as built, yields), or something else?
+    sub = [c for c, v in zip(cases, vs) if v % 10 == 2 and E.history_shape_leader_first(c["items"])]
+    if sub:
+        for c, a in zip(sub, E.evaluate(PROP, "verdict_c17_asbuilt", sub, {})):
+            c["_asbuilt"] = (a == 1)
+    return vs
 
 
 def known(case):
-    """F-C17: a non-main thread has records after its process's main thread's EXIT"""
+    """F-C17: a non-main thread has records after its process's main thread's EXIT, and the converter did with that history exactly what the finding
+    describes (what the as-built model yields); any other outcome on such a history is a different violation and is reported"""
     if E.history_shape_leader_first(case["items"]):
-        return K.known_line(PROP, "F-C17")
+        if "_asbuilt" not in case:
+            evaluate([case])
+        if case.get("_asbuilt"):
+            return K.known_line(PROP, "F-C17")
     return None
 
 
